@@ -106,7 +106,8 @@ fn gen_row(rng: &mut Rng) -> Row {
 
 /// a malformed variant of a well-formed row, with the kind of damage
 fn damage(rng: &mut Rng, r: &Row) -> (String, &'static str) {
-    const NONHEX: &[char] = &['G', 'Z', 'g', 'x', '+', ' ', '.', '_', '\u{E9}', '/', ':', '@', '`'];
+    // (no blank here: a blank in place of the first or last digit is padding around another, valid code point)
+    const NONHEX: &[char] = &['G', 'Z', 'g', 'x', '+', '.', '_', '\u{E9}', '/', ':', '@', '`'];
     let corrupt = |rng: &mut Rng, s: &str| -> String {
         let cs: Vec<char> = s.chars().collect();
         let digits: Vec<usize> = cs.iter().enumerate().filter(|(_, c)| c.is_ascii_hexdigit()).map(|(i, _)| i).collect();
@@ -136,10 +137,15 @@ fn damage(rng: &mut Rng, r: &Row) -> (String, &'static str) {
         5 => (format!("{},,{}", r.cp_field, r.model.desc), "property field empty"),
         6 => (format!("{},{},{}", corrupt(rng, &r.cp_field), r.prop_field, r.model.desc), "hex digit corrupted"),
         7 => {
-            let sign = *rng.pick(&["+", " ", "\t", "0x", "U+", "-"]);
-            (format!("{}{},{},{}", sign, r.cp_field, r.prop_field, r.model.desc), "sign or blank inserted before the code point")
+            let sign = *rng.pick(&["+", "0x", "U+", "-"]);
+            (format!("{}{},{},{}", sign, r.cp_field, r.prop_field, r.model.desc), "sign or prefix inserted before the code point")
         }
-        8 => (format!("{} ,{},{}", r.cp_field, r.prop_field, r.model.desc), "blank after the code point"),
+        8 => {
+            // a blank between two hex digits (blanks AROUND a field are padding, see check_padded_line)
+            let mut f = r.cp_field.clone();
+            f.insert(1, ' ');
+            (format!("{},{},{}", f, r.prop_field, r.model.desc), "blank inside the code point")
+        }
         9 => {
             let big = if rng.chance(1, 2) {
                 0x110000u64 + rng.next() % 0xFFFF_0000
@@ -156,7 +162,7 @@ fn damage(rng: &mut Rng, r: &Row) -> (String, &'static str) {
                 0 => name.to_lowercase(),
                 1 => name[..name.len() - 1].to_string(),
                 2 => format!("{}X", name),
-                3 => format!(" {}", name),
+                3 => format!("{} {}", &name[..2], &name[2..]),
                 _ => format!("X{}", &name[1..]),
             };
             let f = match r.model.p2 {
@@ -237,6 +243,38 @@ fn forgive_line_numbers(got: &mut [Result<Parsed, Option<u64>>], expect: &[Resul
         if *e == Err(None) && got.get(i) == Some(&Err(Some(i as u64 + 2))) {
             got[i] = Err(None);
         }
+    }
+}
+
+/// Blanks or tabs around the code point field or the property field. The statement neither calls this malformed nor promises that it
+/// is accepted: the parser may reject the row, or accept it with exactly the values it spells - nothing else.
+fn check_padded_line(rng: &mut Rng, r: &Row, rec: &mut Rec) {
+    let pad = *rng.pick(&[" ", "\t", "  "]);
+    let f = match rng.below(3) {
+        0 => format!("{}{}", pad, r.cp_field),
+        1 => format!("{}{}", r.cp_field, pad),
+        _ => format!("{}{}{}", pad, r.cp_field, pad),
+    };
+    // ... or around the property field
+    let line = if rng.chance(1, 3) {
+        format!("{},{}{}{},{}", r.cp_field, if rng.chance(1, 2) { pad } else { "" }, r.prop_field, pad, r.model.desc)
+    } else {
+        format!("{},{},{}", f, r.prop_field, r.model.desc)
+    };
+    let got = parse_line(&line);
+    rec.eval();
+    rec.count("padded-code-point-or-property-field (either rejected or read as spelled)");
+    let ok = matches!(got, Out::Ok(Err(_))) || got == Out::Ok(Ok(r.model.clone()));
+    if !ok {
+        rec.violation(
+            "csv-padded-row-read-as-something-else",
+            Witness {
+                op: "PrecisDerivedProperty::from_str".into(),
+                case: format!("line={}", util::esc(&line)),
+                expected: format!("Err(..) or {:?}", r.model),
+                observed: format!("{:?}", got),
+            },
+        );
     }
 }
 
@@ -403,6 +441,9 @@ pub fn run(env: &Env) -> Rec {
             check_good_line(&r, rec);
             let (bad, kind) = damage(&mut rng, &r);
             check_bad_line(&bad, kind, rec);
+            if j % 8 == 0 {
+                check_padded_line(&mut rng, &r, rec);
+            }
             if j % 100 == 0 {
                 check_file(env, &mut rng, c * per + j, rec);
             }
@@ -546,7 +587,17 @@ pub fn replay(env: &Env, _op: &str, case: &str) -> Rec {
                 }
             }
             None => {
-                if !matches!(got, Out::Ok(Err(_))) {
+                // blanks around the code point field: rejected, or read as spelled
+                let unpadded = l.split_once(',').and_then(|(a, rest)| rest.split_once(',').map(|(b, c)| format!("{},{},{}", a.trim_matches([' ', '\t']), b.trim_matches([' ', '\t']), c)));
+                let spelled = unpadded.as_deref().filter(|u| *u != l.as_str()).and_then(own_parse);
+                if let Some(m) = spelled {
+                    if !matches!(got, Out::Ok(Err(_))) && got != Out::Ok(Ok(m.clone())) {
+                        rec.violation(
+                            "csv-padded-row-read-as-something-else",
+                            Witness { op: "PrecisDerivedProperty::from_str".into(), case: case.into(), expected: format!("Err(..) or {:?}", m), observed: format!("{:?}", got) },
+                        );
+                    }
+                } else if !matches!(got, Out::Ok(Err(_))) {
                     rec.violation(
                         "csv-malformed-row-accepted-or-panicked",
                         Witness { op: "PrecisDerivedProperty::from_str".into(), case: case.into(), expected: "Err(..)".into(), observed: format!("{:?}", got) },
